@@ -186,7 +186,7 @@ Theorem press_fn_is_identity : forall lo n v, apply_fn (PressF lo n) v = v.
 Proof. intros lo n v. destruct v; reflexivity. Qed.
 
 Example range_pressure_example :
-  eval_mech (mkProg true false false [SRange 0 1 0 3; SPress 100 9;
+  eval_mech (mkProg true false false 150 [SRange 0 1 0 3; SPress 100 9;
                                       SFor (ERVar 0 1) [SPrintVar 0; SPress 200 9];
                                       SCollect (EMap (PressF 300 9) (ERVar 0 1))])
   = map b ["#0"; "0"; "1"; "2"; "#0"; "[0,1,2,]"; "end"]%string.
@@ -211,10 +211,105 @@ Print Assumptions obj_iter_idem.
 
 (* second traversal after the first exhausted it: a Deck run to its end and traversed again *)
 Example deck_twice_example :
-  eval_mech (mkProg false false true [SObj 0 KDeck [VNum 1; VNum 2; VNum 3] 0;
+  eval_mech (mkProg false false true 150 [SObj 0 KDeck [VNum 1; VNum 2; VNum 3] 0;
                                       SCollect (EObj 0); SCollect (EFilter IsEven (EObj 0));
                                       SCollect (EMap (MulK 2) (EFilter (GtK 1) (EObj 0))); SReduce RSum (VNum 0) (EObj 0)])
   = map b ["[1,2,3,]"; "[2,]"; "[4,6,]"; "6"; "end"]%string.
+Proof. vm_compute. reflexivity. Qed.
+
+(* ---- iterator instances whose FIELD next wraps the class's next ---- *)
+Definition wrapped_elems (mode : wmode) (calls : nat) (l : list value) : list value :=
+  match mode with
+  | WScale k => map (apply_fn (MulK k)) l
+  | WLimit n => firstn (n - calls) l
+  | WCount => l
+  end.
+
+Lemma wrapped_step : forall st id items i mode calls k, nth_error (heap st) id = Some (OWrapped items i mode calls) ->
+  obj_next (S k) st id =
+  (let '(v, c) :=
+     match mode with
+     | WLimit n => if n <=? calls then (VStop, i) else let '(r, c) := vec_next items i in (or_stop r, c)
+     | WScale z => let '(r, c) := vec_next items i in (let v := or_stop r in if derives_stop v then v else apply_fn (MulK z) v, c)
+     | WCount => let '(r, c) := vec_next items i in (or_stop r, c)
+     end in Some (v, set_obj st id (OWrapped items c mode (S calls)))).
+Proof. intros st id items i mode calls k E. cbn [obj_next]. rewrite E. reflexivity. Qed.
+
+Lemma rep_wrapped : forall m st id items i mode calls, nth_error (heap st) id = Some (OWrapped items i mode calls) ->
+  length items - i = m -> Rep 1 st id (wrapped_elems mode calls (until_stop (skipn i items))).
+Proof.
+  induction m as [|m IH]; intros st id items i mode calls E L.
+  - rewrite skipn_all2 by lia. cbn [until_stop].
+    replace (wrapped_elems mode calls []) with (@nil value) by (destruct mode; cbn; try rewrite firstn_nil; reflexivity).
+    eapply Rep_nil with (v := VStop); [reflexivity|]. intros k Hk. destruct k as [|k]; [lia|].
+    rewrite (wrapped_step _ _ _ _ _ _ k E). rewrite vec_next_ge by lia.
+    destruct mode; cbn [or_stop derives_stop]; try reflexivity. destruct (n <=? calls); reflexivity.
+  - destruct (nth_error items i) as [x|] eqn:EX; [|apply nth_error_None in EX; lia].
+    rewrite (skipn_nth_error _ _ _ EX). cbn [until_stop].
+    assert (LT : id < length (heap st)) by (eapply nth_error_lt; eauto).
+    assert (NX : forall c', nth_error (heap (set_obj st id (OWrapped items (S i) mode c'))) id = Some (OWrapped items (S i) mode c')).
+    { intros c'. cbn [set_obj heap]. apply nth_error_upd_same. exact LT. }
+    destruct (is_stop x) eqn:SX.
+    + replace (wrapped_elems mode calls []) with (@nil value) by (destruct mode; cbn; try rewrite firstn_nil; reflexivity).
+      destruct mode as [z|n|].
+      * eapply Rep_nil with (v := x); [exact SX|]. intros k Hk. destruct k as [|k]; [lia|].
+        rewrite (wrapped_step _ _ _ _ _ _ k E). rewrite (vec_next_lt _ _ _ EX). cbn [or_stop].
+        rewrite <- sentinel_uniform, SX. reflexivity.
+      * destruct (n <=? calls) eqn:NC.
+        -- eapply Rep_nil with (v := VStop); [reflexivity|]. intros k Hk. destruct k as [|k]; [lia|].
+           rewrite (wrapped_step _ _ _ _ _ _ k E). rewrite NC. reflexivity.
+        -- eapply Rep_nil with (v := x); [exact SX|]. intros k Hk. destruct k as [|k]; [lia|].
+           rewrite (wrapped_step _ _ _ _ _ _ k E). rewrite NC, (vec_next_lt _ _ _ EX). reflexivity.
+      * eapply Rep_nil with (v := x); [exact SX|]. intros k Hk. destruct k as [|k]; [lia|].
+        rewrite (wrapped_step _ _ _ _ _ _ k E). rewrite (vec_next_lt _ _ _ EX). reflexivity.
+    + destruct mode as [z|n|].
+      * cbn [wrapped_elems map]. eapply Rep_cons with (st' := set_obj st id (OWrapped items (S i) (WScale z) (S calls))).
+        -- apply apply_fn_not_stop. exact SX.
+        -- intros k Hk. destruct k as [|k]; [lia|]. rewrite (wrapped_step _ _ _ _ _ _ k E).
+           rewrite (vec_next_lt _ _ _ EX). cbn [or_stop]. rewrite <- sentinel_uniform, SX. reflexivity.
+        -- apply (IH _ _ items (S i) (WScale z) (S calls)); [apply NX|lia].
+      * cbn [wrapped_elems]. destruct (n <=? calls) eqn:NC.
+        -- apply Nat.leb_le in NC. replace (n - calls) with 0 by lia. cbn [firstn].
+           eapply Rep_nil with (v := VStop); [reflexivity|]. intros k Hk. destruct k as [|k]; [lia|].
+           rewrite (wrapped_step _ _ _ _ _ _ k E). replace (n <=? calls) with true by (symmetry; apply Nat.leb_le; lia). reflexivity.
+        -- pose proof NC as NC'. apply Nat.leb_gt in NC'. replace (n - calls) with (S (n - S calls)) by lia. cbn [firstn].
+           eapply Rep_cons with (st' := set_obj st id (OWrapped items (S i) (WLimit n) (S calls))); [exact SX| |].
+           ++ intros k Hk. destruct k as [|k]; [lia|]. rewrite (wrapped_step _ _ _ _ _ _ k E).
+              rewrite NC, (vec_next_lt _ _ _ EX). reflexivity.
+           ++ apply (IH _ _ items (S i) (WLimit n) (S calls)); [apply NX|lia].
+      * cbn [wrapped_elems]. eapply Rep_cons with (st' := set_obj st id (OWrapped items (S i) WCount (S calls))); [exact SX| |].
+        -- intros k Hk. destruct k as [|k]; [lia|]. rewrite (wrapped_step _ _ _ _ _ _ k E).
+           rewrite (vec_next_lt _ _ _ EX). reflexivity.
+        -- apply (IH _ _ items (S i) WCount (S calls)); [apply NX|lia].
+Qed.
+
+(* field_next_rep: an iterator whose instance FIELD next wraps its class's next hands out the sequence the FIELD
+   produces - to every consumer, since every consumer pulls through obj_next (for loop, manual next, MapIter and
+   FilterIter via rep_chain, collect and reduce via map_filter_collect_reduce_spec) *)
+Theorem field_next_rep : forall st id items,
+  (forall z, nth_error (heap st) id = Some (OWrapped items 0 (WScale z) 0) -> Rep 1 st id (obj_elems KScaled items z)) /\
+  (forall z, nth_error (heap st) id = Some (OWrapped items 0 (WLimit (Z.to_nat z)) 0) -> Rep 1 st id (obj_elems KLimited items z)) /\
+  (nth_error (heap st) id = Some (OWrapped items 0 WCount 0) -> Rep 1 st id (obj_elems KCounted items 0)).
+Proof.
+  intros st id items. repeat split.
+  - intros z E. apply (rep_wrapped _ st id items 0 (WScale z) 0 E eq_refl).
+  - intros z E. pose proof (rep_wrapped _ st id items 0 (WLimit (Z.to_nat z)) 0 E eq_refl) as R.
+    cbn [wrapped_elems skipn] in R. rewrite Nat.sub_0_r in R. exact R.
+  - intros E. apply (rep_wrapped _ st id items 0 WCount 0 E eq_refl).
+Qed.
+Print Assumptions field_next_rep.
+
+Example field_next_example :
+  eval_mech (mkProg true false true 150 [SObj 0 KScaled [VNum 3; VNum 2; VNum 1] 10; SFor (EObj 0) [SPrintVar 0]; SPrintCalls 0;
+                                         SObj 1 KLimited [VNum 3; VNum 2; VNum 1] 2; SCollect (EMap (AddK 1) (EObj 1)); SPrintCalls 1])
+  = map b ["#0"; "30"; "20"; "10"; "#0"; "@4"; "[4,3,]"; "@3"; "end"]%string.
+Proof. vm_compute. reflexivity. Qed.
+
+(* long rejected runs: the depth of FilterIter's search is bounded by fuel in the model only; the sequence is the
+   Spec's whatever the length of the run (instance: 999 rejected elements in a row) *)
+Example long_run_example :
+  eval_mech (mkProg false false false 1100 [SCollect (EFilter (NotIn 0 999) (ERange 0 1000)); SReduce RCount (VNum 0) (EFilter FalseP (ECount 0 1000))])
+  = map b ["[999,]"; "0"; "end"]%string.
 Proof. vm_compute. reflexivity. Qed.
 
 (* ---- the stack of hidden locals ---- *)
@@ -343,6 +438,9 @@ Proof.
   - destruct k0; cbn in H; inversion H; subst; reflexivity.
   - cbn in H. inversion H; subst. reflexivity.
   - inversion H; subst. reflexivity.
+  - inversion H; subst. reflexivity.
+  - inversion H; subst. reflexivity.
+  - eapply Hrec; eauto.
 Qed.
 
 (* for_leaves_no_state ("break and continue leave no iteration state behind"): whatever a statement list does -
@@ -371,13 +469,13 @@ Proof. intros. eapply (exec_stack (S k)); eauto. Qed.
    loop variable prints exactly chain_spec (elements) - checked here on an instance by computation; the general
    statement is for_rounds_visits (any body that keeps the iterator's denotation) + lang_chain_collect_reduce *)
 Example for_loop_example :
-  eval_mech (mkProg true false false [SFor (EFilter (GtK 0) (EMap (AddK (-2)) (EVec [VNum 1; VNum 5; VNum 2; VNum 7]))) [SPrintVar 0; SIf 0 2 [SBreak]]])
+  eval_mech (mkProg true false false 150 [SFor (EFilter (GtK 0) (EMap (AddK (-2)) (EVec [VNum 1; VNum 5; VNum 2; VNum 7]))) [SPrintVar 0; SIf 0 2 [SBreak]]])
   = map b ["#0"; "3"; "5"; "#0"; "end"]%string.
 Proof. vm_compute. reflexivity. Qed.
 
 (* break out of nested loops over one shared iterator: nothing is left on the stack, the iterator keeps its place *)
 Example shared_iterator_example :
-  eval_mech (mkProg true true false [SLet 0 (ERange 0 6);
+  eval_mech (mkProg true true false 150 [SLet 0 (ERange 0 6);
                               SFor (ESlot 0) [SPrintVar 0; SFor (ESlot 0) [SPrintVar 1; SIf 1 2 [SBreak]]; SIf 0 1 [SBreak]];
                               SNext 0])
   = map b ["#0"; "0"; "#3"; "1"; "2"; "#3"; "#0"; "3"; "111"; "222"; "end"]%string.
